@@ -293,7 +293,19 @@ func (ss *Sorts) sortOf1(t types.Type) Sort {
 			return ss.sortOf(u)
 		case *types.Struct:
 			name := Sort("T_" + shortTypeName(tt))
-			if ss.isOpaque(tt) || !ss.w.inRepo(tt.Obj().Pkg()) {
+			// a struct declared outside the repository is opaque; a repository
+			// type defined as such a struct (`type IPAddr netip.Prefix`) shares
+			// its sort, so that conversions between the two are the identity
+			foreign := !ss.w.inRepo(tt.Obj().Pkg())
+			if !foreign && u.NumFields() > 0 && !ss.w.inRepo(u.Field(0).Pkg()) && !u.Field(0).Exported() {
+				foreign = true
+			}
+			if foreign {
+				name = Sort(fmt.Sprintf("T_ext_%x", hashString(u.String())))
+				ss.declare(&sortInfo{Name: name, Kind: "opaque", Decl: fmt.Sprintf("(declare-sort %s 0) ; %s", name, shortTypeName(tt)), GoType: t})
+				return name
+			}
+			if ss.isOpaque(tt) {
 				ss.declare(&sortInfo{Name: name, Kind: "opaque", Decl: fmt.Sprintf("(declare-sort %s 0)", name), GoType: t})
 				return name
 			}
